@@ -363,6 +363,10 @@ func sharedReplay(in, out string) error {
 func main() {
 	var err error
 	switch {
+	case len(os.Args) == 5 && os.Args[1] == "svc":
+		seed, _ := strconv.ParseInt(os.Args[2], 10, 64)
+		rounds, _ := strconv.Atoi(os.Args[3])
+		err = svcMain(seed, rounds, os.Args[4])
 	case len(os.Args) == 4 && os.Args[1] == "shared":
 		err = sharedReplay(os.Args[2], os.Args[3])
 	case len(os.Args) == 4 && os.Args[1] == "replay":
